@@ -158,7 +158,8 @@ def r3_resume_agree(ctx, rule="C05.R3"):
     for v in ("Resume", "ResumeNext", "ResumeLabel"):
         if v not in regions:
             raise CheckError("interpret_one has no arm for Instruction::%s" % v)
-        names = _called_names(one.body, regions[v])
+        # the arm, and a private helper of the same file that the arm calls (shared by the three arms)
+        names = common.region_callee_paths_deep(prog, one.body, regions[v])
         n_take = sum(1 for n in names if n.endswith("::take_last_error_address"))
         n_pop = sum(1 for n in names if n.endswith("context::Context::pop"))
         ctx.decide(n_take == 1, rule, "%s:%s:clears-ERR" % (rule, v), one.loc,
@@ -185,11 +186,7 @@ def r3_resume_agree(ctx, rule="C05.R3"):
     ctx.decide(took_addr, rule, rule + ":take:takes-address", take.loc,
                "takes last_error_address", "take_last_error_address no longer consumes the address")
     # error edge: push_error_handler_context exactly on the Address edge
-    interp = ctx.anchor_method("Interpreter", "interpret")
-    sws = [s for s in mir.enum_switches(prog, interp.body) if s.adt.endswith("::ErrorHandler")]
-    if len(sws) != 1:
-        raise CheckError("interpret: expected one match over ErrorHandler, found %d" % len(sws))
-    sw = sws[0]
+    interp, sw = common.error_dispatch(prog)
     for v in prog.variants(sw.adt):
         tgt = sw.arms.get(v, sw.otherwise)
         region = mir.arm_region(interp.body, sw.bb, tgt)
@@ -327,14 +324,10 @@ def r6_error_unwinding(ctx, rule="C05.R6"):
     does it through push_error_handler_context); (b) a failing built-in leaves its callee context
     (pushed by PushStack) popped before the error propagates."""
     prog = ctx.prog
-    interp = ctx.anchor_method("Interpreter", "interpret")
+    interp, sw = common.error_dispatch(prog)
     direct, shrinking = common.fns_shrinking_field(prog, "states")
     if not direct:
         raise CheckError("no function shrinks Context::states: anchor lost")
-    sws = [s for s in mir.enum_switches(prog, interp.body) if s.adt.endswith("::ErrorHandler")]
-    if len(sws) != 1:
-        raise CheckError("interpret: expected one match over ErrorHandler")
-    sw = sws[0]
     for v in ("Address", "Next"):
         tgt = sw.arms.get(v, sw.otherwise)
         region = mir.arm_region(interp.body, sw.bb, tgt)
@@ -418,13 +411,23 @@ def r7_transfer_committed_last(ctx, rule="C05.R7"):
             tt = body.term(t["t"])
             if tt["k"] == "switch":
                 err_targets |= {tgt for val, tgt in tt["ts"] if val == 1}
+    # the field that carries the transfer is the one the plain Jump arm assigns (whatever its name)
+    transfer = set()
+    for b in regions.get("Jump", ()):
+        for st in body.blocks[b]["s"]:
+            if st["k"] == "assign":
+                transfer |= {e.get("n") for e in st["p"][1] if isinstance(e, dict) and e.get("n")}
+    if len(transfer) != 1:
+        raise CheckError("%s: the Jump arm of interpret_one assigns %d fields (expected the one that holds "
+                         "the next instruction index)" % (rule, len(transfer)))
+    field = next(iter(transfer))
     n = 0
     for v in sorted(regions):
         region = regions[v]
         writes = []
         for b in region:
             for st in body.blocks[b]["s"]:
-                if st["k"] == "assign" and any(isinstance(e, dict) and e.get("n") == "opt_next_index" for e in st["p"][1]):
+                if st["k"] == "assign" and any(isinstance(e, dict) and e.get("n") == field for e in st["p"][1]):
                     writes.append((b, st.get("ln")))
         if not writes:
             continue
